@@ -1230,7 +1230,8 @@ def check_rpm(bn, d, rep, fail):
     for (onum, els), (_, per) in zip(got, answers):
         k = 0
         for j, (kind, pid, idx, exp) in enumerate(per):
-            nxt = per[j + 1] if j + 1 < len(per) else None
+            # the next reference that is not a selector (selectors whose expansion may be empty are looked through)
+            nxt = next((x for x in per[j + 1:] if x[0] != 'special'), None)
             if kind == 'one' or kind == 'special-unknown':
                 want = exp if kind == 'one' else [1, 1, 31]
                 if k >= len(els) or els[k][0] != pid_num(pid) or els[k][1] != c_idx(idx) or els[k][2] != want:
